@@ -196,10 +196,15 @@ void Terminal::Impl::executeExitCmd(SessionContext *s, const Args &)
     if (!(s->options & kQuietMode))
         s->wp_conn->send(s->token, "Bye!\r\n");
 
+    //! capture the token, not the pointer: the session may be gone when this runs
+    auto token = s->token;
     wp_loop_->runNext(
-        [this, s] {
-            s->wp_conn->endSession(s->token);
-            deleteSession(s->token);
+        [this, token] {
+            auto s = sessions_.at(token);
+            if (s == nullptr)
+                return;
+            s->wp_conn->endSession(token);
+            deleteSession(token);
         },
         __func__
     );
